@@ -701,6 +701,9 @@ class ATR_REQ(ATR_REQ_RES):
     @staticmethod
     def decode(data):
         if data.startswith(ATR_REQ.PDU_CODE):
+            if len(data) < 16:
+                errstr = "invalid format of the " + ATR_REQ.PDU_NAME
+                raise nfc.clf.ProtocolError(errstr)
             nfcid3, (did, bs, br, pp) = data[2:12], data[12:16]
             gb = data[16:] if pp & 0x02 else bytearray()
             return ATR_REQ(nfcid3, did, bs, br, pp, gb)
@@ -728,6 +731,9 @@ class ATR_RES(ATR_REQ_RES):
     @staticmethod
     def decode(data):
         if data.startswith(ATR_RES.PDU_CODE):
+            if len(data) < 17:
+                errstr = "invalid format of the " + ATR_RES.PDU_NAME
+                raise nfc.clf.ProtocolError(errstr)
             nfcid3, (did, bs, br, to, pp) = data[2:12], data[12:17]
             gb = data[17:] if pp & 0x02 else bytearray()
             return ATR_RES(nfcid3, did, bs, br, to, pp, gb)
